@@ -618,6 +618,10 @@ func callName(c *ssa.Call) []string {
 }
 
 func (fc *FnCtx) initCallFlags() {
+	// $sends: the number of channel sends executed so far (contract builtin sends())
+	fc.heapSort["$sends"] = SInt
+	fc.touched["$sends"] = true
+	fc.entry.m["$sends"] = "0"
 	for n := range fc.trackedCalls() {
 		fc.heapSort["$called."+n] = SBool
 		fc.touched["$called."+n] = true
